@@ -91,6 +91,7 @@ func (r ownRev) String() string {
 type ownCase struct {
 	Policy    string
 	Limit     int32
+	ScaleIn   bool // spec.replicas is 2: the pod at ordinal 2 is condemned (and a pinned pod is the one at ordinal 0)
 	Pods      [3]ownPod
 	Revs      [3]ownRev // slot 0: data T1 (the set's template), 1: T2, 2: T3
 	EqualNums bool      // all revisions carry the same revision number
@@ -103,7 +104,7 @@ type ownCase struct {
 }
 
 func (c ownCase) String() string {
-	return fmt.Sprintf("%s lim=%d pods=%v revs=%v equalnums=%v reversed=%v pinB=%v pinTerminating=%v allAtB=%v api=%s paused=%v", c.Policy, c.Limit, c.Pods, c.Revs, c.EqualNums, c.Reversed, c.PinB, c.PinTerm, c.AllAtB, c.API, c.Paused)
+	return fmt.Sprintf("%s lim=%d scaleIn=%v pods=%v revs=%v equalnums=%v reversed=%v pinB=%v pinTerminating=%v allAtB=%v api=%s paused=%v", c.Policy, c.Limit, c.ScaleIn, c.Pods, c.Revs, c.EqualNums, c.Reversed, c.PinB, c.PinTerm, c.AllAtB, c.API, c.Paused)
 }
 
 func podNameFor(shape string, i int) string {
@@ -154,7 +155,11 @@ func (c ownCase) stripped() ownCase {
 }
 
 func (c ownCase) Build(w *world.World) *world.State {
-	sp := gen.Spec{Name: "web", Replicas: 3, Policy: c.Policy, Strategy: gen.RU(0), Limit: c.Limit, Template: 1, Paused: c.Paused}
+	replicas := int32(3)
+	if c.ScaleIn {
+		replicas = 2
+	}
+	sp := gen.Spec{Name: "web", Replicas: replicas, Policy: c.Policy, Strategy: gen.RU(0), Limit: c.Limit, Template: 1, Paused: c.Paused}
 	set := sp.Build()
 	st := world.NewState()
 	var names [3]string
@@ -192,10 +197,14 @@ func (c ownCase) Build(w *world.World) *world.State {
 		}
 		rev := names[0]
 		tmpl := 1
-		if (c.PinB && i == 2) || c.AllAtB {
+		pinAt := 2
+		if c.ScaleIn {
+			pinAt = 0
+		}
+		if (c.PinB && i == pinAt) || c.AllAtB {
 			rev, tmpl = names[1], 2
 		}
-		cell := gen.Cell{Present: true, Phase: v1.PodRunning, Ready: true, Term: pc.Term || (c.PinB && c.PinTerm && i == 2), Owner: pc.Owner, NoMatch: pc.NoMatch}
+		cell := gen.Cell{Present: true, Phase: v1.PodRunning, Ready: true, Term: pc.Term || (c.PinB && c.PinTerm && i == pinAt), Owner: pc.Owner, NoMatch: pc.NoMatch}
 		p := gen.BuildPod(set, i, cell, rev, tmpl, nil)
 		p.Name = podNameFor(pc.Shape, i)
 		p.UID = types.UID("uid-pod-" + p.Name)
@@ -350,6 +359,13 @@ func ownGrid(apis []string, policies []string, paused bool, podDepth int, thorou
 									if !emit(c) {
 										return
 									}
+									if pinMode == 1 && lim != 10 {
+										// the same while a scale-in is under way: a condemned pod next to the pinned one
+										c.ScaleIn = true
+										if !emit(c) {
+											return
+										}
+									}
 								}
 							}
 						}
@@ -370,7 +386,7 @@ func ownCheck(prop string, apis, policies []string, paused bool, differential bo
 	if prop == "C10" {
 		depth = 2
 	}
-	rep.Rule = fmt.Sprintf("ownership snapshot enumeration: set web (r=3, %v, RU p=0) plus a second set with the same selector; (P) pods at 3 ordinals, up to %d of them replaced by any cell of owner{this,none,other UID,other kind,non-controller ref} x labels{match,no match} x name{S-i,S-x,other-i,S-i-j,S-0i (leading zero)} x terminating, also without the pod-name label, in another namespace, and re-created behind the cache (API copy with another UID), or absent; (R) full product of three revision slots (data T1=the set's template, T2, T3) each absent or owner{this,none,other UID,other kind,built-in StatefulSet of the same name} x labels{selector,upgrade marker,both}, x revisionHistoryLimit{0,1,10} x pod-label pinning (none / one live pod / one terminating pod at another revision / all pods at another revision) x revision numbering (descending with age / all equal / reversed, i.e. a rollback pending); x API copy of the set %v; paused=%v. One real reconcile per snapshot. %s Non-trivial = at least one write or an error.", policies, depth, apis, paused, ruleText)
+	rep.Rule = fmt.Sprintf("ownership snapshot enumeration: set web (r=3, %v, RU p=0) plus a second set with the same selector; (P) pods at 3 ordinals, up to %d of them replaced by any cell of owner{this,none,other UID,other kind,non-controller ref} x labels{match,no match} x name{S-i,S-x,other-i,S-i-j,S-0i (leading zero)} x terminating, also without the pod-name label, in another namespace, and re-created behind the cache (API copy with another UID), or absent; (R) full product of three revision slots (data T1=the set's template, T2, T3) each absent or owner{this,none,other UID,other kind,built-in StatefulSet of the same name} x labels{selector,upgrade marker,both}, x revisionHistoryLimit{0,1,10} x pod-label pinning (none / one live pod (also with a scale-in under way: replicas 2, the pod at ordinal 2 condemned) / one terminating pod at another revision / all pods at another revision) x revision numbering (descending with age / all equal / reversed, i.e. a rollback pending); x API copy of the set %v; paused=%v. One real reconcile per snapshot. %s Non-trivial = at least one write or an error.", policies, depth, apis, paused, ruleText)
 	rep.Assumptions = apiAssumptions
 	deadline := explore.Deadline(100*time.Second, 15*time.Minute)
 	judge := monitorOf(prop)
@@ -521,6 +537,29 @@ func init() {
 			depth = 2
 		}
 		ownGrid([]string{"cache-deleting", "api-deleting"}, []string{"Parallel", "OrderedReady"}, false, depth, thorough, emitOwn)
+		if ok {
+			// several orphans waiting at once (the confirmation must hold for every one of them, not only the first)
+			for _, api := range []string{"api-deleting", "cache-deleting", "other-uid", "absent"} {
+				for _, pol := range []string{"Parallel", "OrderedReady"} {
+					for mask := 0; mask < 8; mask++ {
+						if mask&(mask-1) == 0 {
+							continue // fewer than two orphans: covered by the grid above
+						}
+						for _, term := range []bool{false, true} {
+							c := ownCase{Policy: pol, Limit: 10, Pods: [3]ownPod{defaultOwnPod, defaultOwnPod, defaultOwnPod}, Revs: defaultOwnRevs, API: api}
+							for i := 0; i < 3; i++ {
+								if mask&(1<<i) != 0 {
+									c.Pods[i] = ownPod{Present: true, Owner: "none", Shape: "S-i", Term: term && i == 0}
+								}
+							}
+							if !emitOwn(c) {
+								break
+							}
+						}
+					}
+				}
+			}
+		}
 		if ok {
 			// paused, also in combination with a deletion timestamp
 			ownGrid([]string{"same", "cache-deleting", "api-deleting"}, []string{"Parallel"}, true, depth, thorough, emitOwn)
